@@ -29,7 +29,7 @@ TRUSTED = [
 ASSUMPTIONS = [
     "words on the completed command line contain no IFS white space and no glob characters (the script iterates over an "
     "unquoted ${COMP_WORDS[@]}); names in the tree contain no shell metacharacters",
-    "C16_bash_table / C16_bash_reaches are stated for mangle_safe trees (no name contains '__', ends in '_' or contains a "
+    "C16_bash_table / C16_bash_complete are stated for mangle_safe trees (no name contains '__', ends in '_' or contains a "
     "space; '-' -> '__' is injective on the subcommand paths; sibling names and aliases are distinct, as clap's own "
     "configuration check demands)",
     "positional placeholders / positional possible values in the bash word list are tolerated extras of the addressed "
@@ -797,7 +797,7 @@ def streams(tier, rng):
     quick = tier == "quick"
     out = []
     # 1. bash, trees inside the class, queries that address a level by complete words
-    n = 90 if quick else 700
+    n = 140 if quick else 2000
     cases, dist = [], {}
     for _ in range(n):
         c, st = make_case(rng, "bash", tier, nq=30 if quick else 70)
@@ -805,7 +805,7 @@ def streams(tier, rng):
         merge(dist, st)
     out.append(Stream("bash", cases, oracle=oracle, area="aot", project=project, nontrivial=nontrivial, describe=dist))
     # 2. the other five generators on the same kind of trees
-    n = 40 if quick else 300
+    n = 50 if quick else 700
     cases, dist = [], {}
     for sh in SHELLS[1:]:
         for _ in range(n):
@@ -814,7 +814,7 @@ def streams(tier, rng):
             merge(dist, st)
     out.append(Stream("shells", cases, oracle=oracle, area="aot", project=project, nontrivial=nontrivial, describe=dist))
     # 3. adversarial: borders of the class and the known families
-    n = 12 if quick else 80
+    n = 12 if quick else 150
     cases, dist = [], {}
     for _ in range(n):
         c, st = make_case(rng, "bash", tier, nq=30, fixed=adv_dunder, profile={"bin": "prog"})
@@ -848,7 +848,7 @@ LEVEL_TEXT = ("Machine-checked theorems (Coq 8.16, closed under the global conte
               "alias, bin path) pairs of every non-root node; shorts/longs/flags/possible_values return exactly the "
               "visible spellings; for mangle_safe trees every path of names or visible aliases drives the generated "
               "cmd,word) table to the function of the addressed node and that function's opts are exactly the node's "
-              "options and subcommand words; compgen -W is the prefix filter.  The model is tied to the real crates on "
+              "options and subcommand words; the model of bash's reading of the script then replies, for a partial word that is not itself a child's word, exactly the words of the addressed level that start with it (compgen -W = prefix filter).  The model is tied to the real crates on "
               "every check: the extracted model's bash script, built tree and COMPREPLY lists are compared with the real "
               "generator's script, Command::build and the installed bash; a python oracle written from the property text "
               "checks token coverage for all six shells and bash's replies per subcommand path and partial word.")
